@@ -19,6 +19,7 @@ def run_program_case(case, prop: str, focus_kinds=None):
         return dict(nontrivial=False, key=None, labels=["prep-failed:" + type(e.exc).__name__])
     m.probe_remeasure = prop == "C05"
     keyparts = []
+    carried = 0
     for i, st in enumerate(case["steps"]):
         try:
             res = m.step(st)
@@ -51,21 +52,42 @@ def run_program_case(case, prop: str, focus_kinds=None):
         except Tagged as t:
             if prop in t.props:
                 t.site.setdefault("step_index", min(i, 3))
+                if carried and "history-reference-used" in m.labels:
+                    note = (" [judged against the state the preceding calls should have produced; an earlier call had already "
+                            "left a different state behind: " + "; ".join(l for l in labels if l.startswith("continued-with-history")) + "]")
+                    t.detail += note
+                    t.args = (t.args[0] + note,)
                 raise
             if getattr(t, "from_invariant", False):
                 # another property's invariant is violated but this step's own oracle passed: go on
                 labels.append("continued-after-foreign-invariant:" + "+".join(t.props))
                 continue
-            labels.append("abandoned-after-foreign:" + "+".join(t.props))
             if prop in ("C07", "C13"):
                 # the step oracle of another property fired first; the state it left behind is still
                 # subject to this property's invariant
                 m.invariants_now(prop, dict(t.site, after_foreign=True))
+            labels.append(f"foreign-at:{i}")
+            if getattr(t, "expected", None) is not None and not t.site.get("r5_trigger") and carried < 4:
+                # the call corrupted the state (another property's verdict): go on with the state it should
+                # have produced as the reference, so that this property's oracles see what the user sees
+                m.carry = t.expected
+                carried += 1
+                labels.append("continued-with-history-reference:" + "+".join(t.props))
+                continue
+            labels.append("abandoned-after-foreign:" + "+".join(t.props))
             break
         except Malformed as mm:
             if prop in ("C07", "C13"):
                 raise Violation("malformed", mm.reason, dict(what=mm.what))
             labels.append("abandoned-malformed")
+            break
+        except Violation:
+            raise
+        except Exception:
+            if not carried:
+                raise
+            # only reachable on a tree where another property's step oracle has already failed
+            labels.append("abandoned-error-after-foreign")
             break
         if isinstance(res, dict) and "site" in res:
             s = res["site"]
